@@ -4,6 +4,7 @@ import (
 	"fmt"
 	"go/types"
 	"math/big"
+	"regexp"
 	"strings"
 )
 
@@ -51,8 +52,21 @@ var opaqueTypes = map[string]bool{
 	"sync.Mutex":         false,
 }
 
+var reByteRune = regexp.MustCompile(`\b(byte|rune)\b`)
+
+// typeKey is the canonical name of a type; the predeclared aliases byte and rune are spelled uint8 and
+// int32 so that identical types share one heap family.
 func typeKey(t types.Type) string {
-	return types.TypeString(t, func(p *types.Package) string { return p.Path() })
+	s := types.TypeString(types.Unalias(t), func(p *types.Package) string { return p.Path() })
+	if strings.Contains(s, "byte") || strings.Contains(s, "rune") {
+		s = reByteRune.ReplaceAllStringFunc(s, func(m string) string {
+			if m == "byte" {
+				return "uint8"
+			}
+			return "int32"
+		})
+	}
+	return s
 }
 
 func isOpaque(t types.Type) bool {
